@@ -90,9 +90,11 @@ impl MT941 {
 
         // Parse optional forward available balance (can be repetitive)
         let mut field_65_vec = Vec::new();
+        parser = parser.with_duplicates(true);
         while parser.detect_field("65") {
             field_65_vec.push(parser.parse_field::<Field65>("65")?);
         }
+        parser = parser.with_duplicates(false);
         let field_65 = if field_65_vec.is_empty() {
             None
         } else {
